@@ -263,6 +263,35 @@ theorem zero_allocation_behaviour (root : (Bytes → Option Bytes) → Nat) (c :
         rw [sumFor_snoc]; simp
       simp only [this]
 
+/-- **C27 (reusable genesis)** — in the model `InitializeState` / `NewGenesisCommit` are pure
+functions of the genesis value `(c, allocs)`: the value is an input only (it cannot be
+altered), so initialising twice — on two fresh databases, or after any encoding round trip
+`dec (enc x) = x` of the value — yields the same result: same error, or same committed
+content, same header and root. Trivial in Lean; the obligation is on the Go side, where the
+genesis is a mutable object (`[]*CustomAllocation`): the tie runs the same object twice and
+once after a JSON round trip and compares the allocation list before/after. -/
+theorem initialize_idempotent_on_input {E : Type} (root : (Bytes → Option Bytes) → Nat)
+    (enc : Config × List Alloc → E) (dec : E → Config × List Alloc)
+    (hrt : ∀ x, dec (enc x) = x) (c : Config) (allocs : List Alloc) :
+    let first := genesisCommit root c allocs
+    let again := genesisCommit root c allocs
+    let viaCodec := genesisCommit root (dec (enc (c, allocs))).1 (dec (enc (c, allocs))).2
+    again = first ∧ viaCodec = first ∧
+    (∀ m hdr, first = .ok (m, hdr) → again = .ok (m, hdr) ∧ hdr.stateRoot = root (content m)) ∧
+    initializeState c.balancePrefix allocs = initializeState c.balancePrefix allocs := by
+  intro first again viaCodec
+  refine ⟨rfl, by simp only [viaCodec, first, hrt], ?_, rfl⟩
+  intro m hdr h
+  refine ⟨h, ?_⟩
+  simp only [first] at h
+  unfold genesisCommit at h
+  repeat' split at h
+  all_goals first | (cases h; done) | skip
+  injection h with h
+  injection h with hm hh
+  subst hm; subst hh
+  rfl
+
 /-! ### non-vacuity: concrete runs of the model -/
 
 private def c0 : Config :=
